@@ -3,6 +3,7 @@
      k IDX CTX POD Z           run registry entry IDX: decode Z (pod=0/1, context field value CTX), re-encode
      x SERSPEC CTX POD Z       same for a serializer given inline (synthetic classes)
      s SERSPEC CTX VALUE       serialize a value given in the printed text form
+     p VALUE                   model repr() of a plain-data value (hex), q HEX  model literal_eval of a text
      o SERSPEC TY              registered_ok / registered_fits of an inline serializer
    grammar  table  : A=1,B=-2 | -
             adapter: identity | bool | nibbles | enum;STRICT;table;table | flag;table;table
@@ -146,6 +147,11 @@ let run (s : serializer) ctx pod z =
         | SV VUnser -> "-"
         | _ -> (match s_serialize s ctx v with Some z' -> string_of_z z' | None -> "EXC"))
 
+let hex_of (s : string) : string =
+  String.concat "" (List.init (String.length s) (fun i -> Printf.sprintf "%02x" (Char.code s.[i])))
+let unhex (h : string) : string =
+  String.init (String.length h / 2) (fun i -> Char.chr (int_of_string ("0x" ^ String.sub h (2 * i) 2)))
+
 let registry_arr = Array.of_list registry
 
 let () =
@@ -166,6 +172,18 @@ let () =
          | ["s"; s; ctx; v] ->
            print_endline (match s_serialize (parse_ser s) (z_of_string ctx) (parse_sval v) with
                | Some z -> string_of_z z | None -> "EXC")
+         | ["p"; v] ->
+           (* repr() of a plain-data value, as hex; NONE outside the literal fragment *)
+           (match parse_sval v with
+            | SV x -> (match lit_of_value x with
+                | Some p -> print_endline ((if safe_plit p then "safe " else "unsafe ") ^ hex_of (ocaml_string_of (print_plit p)))
+                | None -> print_endline "NONE")
+            | SDict _ -> print_endline "NONE")
+         | ["q"; h] ->
+           (* literal_eval of a text given as hex *)
+           (match parse_plit (cs (unhex h)) with
+            | Some p -> print_endline (value_text (value_of_lit p))
+            | None -> print_endline "NONE")
          | ["o"; s; ty] ->
            let s = parse_ser s and t = parse_ty ty in
            print_endline ((if registered_ok s t then "ok" else "bad") ^ " " ^ (if registered_fits s t then "fits" else "misfit"))
